@@ -171,6 +171,11 @@ func (d *ipamDeco) ByKeyAndIPRanges(k string, r [][]nets.IPRange) ([]*floatingip
 // EntryPoints are the six operations the per-pod key mutex has to serialise.
 var EntryPoints = []string{"filter", "bind", "unbind", "resync1", "release", "syncpodip"}
 
+// UnlockedEntryPoints legitimately do not take the pod lock (Preempt runs getSubnet unlocked): the probe starts them as
+// B and only records that they ran while A was parked (`lock-probe:preempt-ran-unlocked`); what that implies is the
+// Lean lemma preempt_alloc_any_time (its one mutation is safe in any state) and, for C07, a possible extra allocation.
+var UnlockedEntryPoints = []string{"preempt"}
+
 // probeScene is one prepared world with everything needed to call each entry point for ONE pod identity.
 type probeScene struct {
 	w       *World
@@ -281,6 +286,9 @@ func (sc *probeScene) call(ep string) {
 		w.Plugin.Release(&schedulerplugin.ReleaseRequest{KeyObj: sc.key, IP: nets.IntToIP(sc.ip)})
 	case "syncpodip":
 		w.Plugin.UpdatePod(sc.runPod, sc.runPod)
+	case "preempt":
+		victims := map[string]*schedulerapi.MetaVictims{"n1": {}, "n2": {}}
+		w.Plugin.Preempt(&schedulerapi.ExtenderPreemptionArgs{Pod: sc.podObj, NodeNameToMetaVictims: victims})
 	}
 }
 
@@ -312,6 +320,10 @@ func ProbePair(template, a, b string, rng *rand.Rand) (*hx.Violation, bool, erro
 	g.Resume()
 	var v *hx.Violation
 	sched := []string{"schedule", "probe " + template + " " + a + " " + b}
+	if len(during) > 0 && b == "preempt" {
+		during = nil // documented exception
+		sc.w.Mon["preempt-ran-unlocked"] = true
+	}
 	if len(during) > 0 {
 		var names []string
 		for _, x := range during {
@@ -355,6 +367,7 @@ func LockProbe(e *hx.Env, prop string) *Batch {
 			for _, bb := range EntryPoints {
 				jobs = append(jobs, job{t, a, bb})
 			}
+			jobs = append(jobs, job{t, a, "preempt"})
 		}
 	}
 	if !e.Thorough() {
@@ -363,7 +376,7 @@ func LockProbe(e *hx.Env, prop string) *Batch {
 			"T3filter": true, "T3bind": true, "T3syncpodip": true}
 		var sel []job
 		for _, j := range jobs {
-			if parkable[j.t+j.a] && (j.b == "unbind" || j.b == "release" || j.b == "resync1" || e.Rng.Intn(3) == 0) {
+			if parkable[j.t+j.a] && (j.b == "unbind" || j.b == "release" || j.b == "resync1" || j.b == "preempt" || e.Rng.Intn(3) == 0) {
 				sel = append(sel, j)
 			}
 		}
